@@ -7,7 +7,10 @@ function on the same length, compute/place the same syndrome-position function, 
 compute_cover_positions(len, 2**i); the overall parity is bit 0 of the output and dropped by i[1:]; parity
 covers the whole input; H3 the `~enable => syndrome = 0` override is the last driver of the syndrome;
 ded under syndrome != 0 & ~parity, sec under syndrome != 0 & parity.
-Not decided: the Hamming geometry itself (that the position functions define a SECDED code)."""
+H4 the Hamming geometry: compute_m_n / compute_syndrome_positions / compute_data_positions / compute_cover_positions are interpreted
+exactly (lxs/pyconst.py, an own closed interpreter -- nothing of the repository runs) for every data width 1..72 and 128, 256 and
+compared with the definition of the extended Hamming code (m minimal with 2**m >= m+k+1; check bits at the powers of two <= n; data
+at the other positions; check bit p covers the positions whose index has bit p set)."""
 import ast
 from ..core import AnalysisError, norm
 from .. import boolx as B
@@ -41,6 +44,57 @@ def _sub(text):
     return base, norm(s), None, off
 
 
+def _h4(ctx):
+    from .. import pyconst
+    m_ = ctx.mod(F)
+    funcs = {n.name: n for n in m_.tree.body if isinstance(n, ast.FunctionDef)}
+    for need in ("compute_m_n", "compute_syndrome_positions", "compute_data_positions", "compute_cover_positions"):
+        ctx.need(need in funcs, f"{F}: helper {need} vanished")
+    consts = pyconst.module_consts(m_.tree)
+
+    def ev(fn, **args):
+        r = pyconst.call(funcs[fn], args, consts=consts, funcs=funcs)
+        if r[0] != "return":
+            raise pyconst.Unknowable(f"{fn}{args} raises")
+        return r[1]
+    n_ev = 0
+    for k in list(range(1, 73)) + [128, 256]:
+        m = 1
+        while 2 ** m < m + k + 1:
+            m += 1
+        n = m + k
+        try:
+            got = ev("compute_m_n", k=k)
+            ok = tuple(got) == (m, n) if isinstance(got, (tuple, list)) else False
+            ctx.ob("H4", F, "compute_m_n", f"k={k}: (m, n) = ({m}, {n})", ok,
+                   "" if ok else f"compute_m_n({k}) = {got}, the extended Hamming code needs m = {m} check bits (2**m >= m + k + 1) and n = {n}: "
+                                 f"with fewer check bits two single-bit errors share a syndrome / a data bit sits on a check position", funcs["compute_m_n"])
+            sp = ev("compute_syndrome_positions", m=n)
+            want = [1 << i for i in range(n.bit_length()) if (1 << i) <= n]
+            ok = list(sp) == want
+            ctx.ob("H4", F, "compute_syndrome_positions", f"n={n}: powers of two <= n", ok,
+                   "" if ok else f"compute_syndrome_positions({n}) = {sp}, expected {want}", funcs["compute_syndrome_positions"])
+            dp = ev("compute_data_positions", m=n)
+            wantd = [i for i in range(1, n + 1) if i & (i - 1)]
+            ok = list(dp) == wantd and len(wantd) == k
+            ctx.ob("H4", F, "compute_data_positions", f"n={n}: the {k} positions that are not powers of two", ok,
+                   "" if ok else f"compute_data_positions({n}) = {list(dp)[:12]}.. ({len(dp)} positions), expected {wantd[:12]}.. ({len(wantd)})",
+                   funcs["compute_data_positions"])
+            bad = None
+            for p in want:
+                cp = ev("compute_cover_positions", m=n, p=p)
+                wantc = [i for i in range(1, n + 1) if i & p]
+                if sorted(cp) != wantc:
+                    bad = (p, list(cp)[:10], wantc[:10])
+                    break
+            ctx.ob("H4", F, "compute_cover_positions", f"n={n}: check bit p covers the positions with bit p set", bad is None,
+                   "" if bad is None else f"compute_cover_positions({n}, {bad[0]}) = {bad[1]}.., expected {bad[2]}..", funcs["compute_cover_positions"])
+            n_ev += 4
+        except pyconst.Unknowable as ex:
+            ctx.need(False, f"ECC helper cannot be interpreted for k={k}: {ex}")
+    ctx.analysed["paths"] += n_ev
+
+
 def run(ctx):
     ctx.rule("H1", "every use of a 1-based code position as a bit index subtracts 1; the flip cases range over 1 .. 2**m - 1",
              min_sites=7)
@@ -49,6 +103,11 @@ def run(ctx):
                    "dropped by i[1:]; parity covers the whole word", min_sites=12)
     ctx.rule("H3", "disable override is the last syndrome driver; ded = syndrome != 0 & ~parity; sec = syndrome != 0 & parity; "
                    "uncorrected default arm", min_sites=5)
+
+    ctx.rule("H4", "Hamming geometry: m is the least number of check bits with 2**m >= m + k + 1, n = m + k; check bits sit at the "
+                   "powers of two <= n, data bits at the remaining positions 1..n (exactly k of them); check bit p covers exactly the "
+                   "positions with bit p set -- for every data width 1..72, 128, 256", min_sites=296)
+    _h4(ctx)
 
     enc = fx_of(ctx, F, "ECCEncoder")
     dec = fx_of(ctx, F, "ECCDecoder")
